@@ -449,10 +449,8 @@ func (p *Parser) peek() byte {
 }
 
 func (p *Parser) peekTwo() (byte, byte) {
-	// TODO: This should loop for slow readers, e.g. those providing one byte at
-	// a time. Use a loop and test it with [testing/iotest.OneByteReader].
-	if int(p.bsp+1) >= len(p.bs) {
-		p.fill()
+	// Loop for slow readers, e.g. those providing one byte at a time.
+	for int(p.bsp+1) >= len(p.bs) && p.fill() > 0 {
 	}
 	if int(p.bsp) >= len(p.bs) {
 		return utf8.RuneSelf, utf8.RuneSelf
@@ -1065,23 +1063,30 @@ loop:
 // range glob pattern like <->, <5->, <-10>, or <5-10>.
 func (p *Parser) zshNumRange() bool {
 	// Peeking a handful of bytes here should be enough.
-	// TODO: This should loop for slow readers, e.g. those providing one byte at
-	// a time. Use a loop and test it with [testing/iotest.OneByteReader].
-	if int(p.bsp) >= len(p.bs) {
-		p.fill()
+	// Loop for slow readers, e.g. those providing one byte at a time.
+	off := 0
+	next := func() (byte, bool) {
+		for int(p.bsp)+off >= len(p.bs) {
+			if off >= bufSize/2 || p.fill() == 0 {
+				return 0, false
+			}
+		}
+		b := p.bs[int(p.bsp)+off]
+		off++
+		return b, true
 	}
-	rest := p.bs[p.bsp:]
-	for len(rest) > 0 && rest[0] >= '0' && rest[0] <= '9' {
-		rest = rest[1:]
+	b, ok := next()
+	for ok && b >= '0' && b <= '9' {
+		b, ok = next()
 	}
-	if len(rest) == 0 || rest[0] != '-' {
+	if !ok || b != '-' {
 		return false
 	}
-	rest = rest[1:]
-	for len(rest) > 0 && rest[0] >= '0' && rest[0] <= '9' {
-		rest = rest[1:]
+	b, ok = next()
+	for ok && b >= '0' && b <= '9' {
+		b, ok = next()
 	}
-	return len(rest) > 0 && rest[0] == '>'
+	return ok && b == '>'
 }
 
 func (p *Parser) advanceLitNone(r rune) {
